@@ -40,8 +40,9 @@ def _clone(x):
     return envstubs._clone(x)
 
 
-def e_toml(ctx, kind, present, form="const", with_limits=True, loss=None):
-    """Optional keys in ``present`` are written to the file, the others are absent (constructor defaults)."""
+def e_toml(ctx, kind, present, form="const", with_limits=True, loss=None, iq=False):
+    """Optional keys in ``present`` are written to the file, the others are absent (constructor defaults).
+    ``iq``: LinReg only - the deprecated scalar ground-current key is present as well (any value, also 0)."""
     optional = [k for k in PARAMS[kind] if k not in MANDATORY[kind]]
     P = params(ctx, kind, "X", form, only=[k for k in optional if k in present], nmux=2, rs_list=(kind == "PMux" and "rslist" in present))
     if kind == "RectM":
@@ -50,6 +51,9 @@ def e_toml(ctx, kind, present, form="const", with_limits=True, loss=None):
     if loss is not None and kind in spec.LOADS:
         P["loss"] = loss
     ctx.assume(spec.valid(kind, {**P, "loss": bool(loss)}))
+    if iq:
+        P["iq"] = ctx.real("X.iq")
+        ctx.nice(P["iq"], [0.001, 0.0, -0.002])
     if kind == "RectD" and not isinstance(P["vdrop"], spec.Table):
         ctx.assume(Not(Eq(P["vdrop"], 0.0)))
     lim = mk_limits(ctx, "X", spec.documented_limits(cls_of(kind))[:2]) if with_limits else None
@@ -147,7 +151,7 @@ META = {
     "functions": ["components._Component.from_file", "components.LinReg.from_file", "components._get_opt/_get_mand", "per-kind _cparams schema",
                   "components.*.__init__"],
     "bounds": "optional-key subsets: none / all / each single key (quick), all subsets (thorough); forms const, 1-D (2 points), 2-D (2x2); 2 limits",
-    "outside": "TOML text syntax; deprecated LinReg 'iq' key",
+    "outside": "TOML text syntax; a TABLE under the deprecated LinReg 'iq' key (the scalar form is covered)",
     "assumptions": ["floats as reals", "toml.load returns the dict that was dumped"],
 }
 
@@ -174,4 +178,8 @@ def instances(tier):
                 out.append(Instance("C13", "c13:e_toml", dict(kind=kind, present=list(optional), form=form), cover=["loaded"], weight=5))
         if kind == "PMux":
             out.append(Instance("C13", "c13:e_toml", dict(kind=kind, present=list(optional) + ["rslist"], form="const"), cover=["loaded"]))
+        if kind == "LinReg":  # the deprecated key next to / instead of the new one
+            for sub, form in ((list(optional), "const"), ([k for k in optional if k != "ig"], "const"), (list(optional), "t1x2")):
+                out.append(Instance("C13", "c13:e_toml", dict(kind=kind, present=sub, form=form, iq=True), cover=["loaded"],
+                                    name="toml/LinReg/deprecated-iq/%s/%s" % ("with-ig" if "ig" in sub else "without-ig", form)))
     return out, META
